@@ -1209,6 +1209,8 @@ def _run(tier, res, b):
         vlib.report_broken_build(res, b, None)
     if diffs or not okx:
         name = next(iter(diffs)) if diffs else "extraction"
-        res.violation({"correspondence": name}, {"first_differences": diffs, "extraction_ok": okx, "log": xlog[-600:] if not okx else ""},
+        if diffs and isinstance(diffs[name].get("impl"), str):
+            name += " (%s)" % diffs[name]["impl"][:220]
+        res.violation({"correspondence": name.split(" (")[0]}, {"first_differences": diffs, "extraction_ok": okx, "log": xlog[-600:] if not okx else ""},
                       "correspondence of the Stripe model with %s no longer holds" % name, no_input=not reported)
     return res.finish()
